@@ -46,6 +46,14 @@ type Task struct {
 	Children bool            `json:"children,omitempty"` // run Prefix once, return child prefixes
 	Once     bool            `json:"once,omitempty"`     // run Prefix once (replay)
 	Deadline int64           `json:"deadline,omitempty"` // unix nanos; stop cleanly when passed
+	// Random: diagnostic sampling instead of the exhaustive search: Runs
+	// executions with random choices (seeded), Switch = probability of a
+	// non-default choice at each point.
+	Random struct {
+		Seed   int64   `json:"seed"`
+		Runs   int     `json:"runs"`
+		Switch float64 `json:"switch"`
+	} `json:"random,omitempty"`
 }
 
 // ExecViolation is a violation with the schedule that shows it.
@@ -96,10 +104,20 @@ func cost(p sched.Point, alt int) (pre, dev int) {
 var RaceCheck func() []string
 
 // runOnce executes the scenario under prefix.
+// randomOpt is set while Handle samples random schedules.
+var randomOpt struct {
+	rng *sched.Rng
+	sw  float64
+}
+
 func runOnce(body Body, prefix []int, b Bounds) (*sched.Result, []pagedrv.Violation, string) {
 	var viol []pagedrv.Violation
 	lastOutcome = ""
-	res := sched.Run(prefix, sched.Options{EnvChoices: b.EnvChoices, StepBudget: b.StepBudget}, func() {
+	opt := sched.Options{EnvChoices: b.EnvChoices, StepBudget: b.StepBudget}
+	if prefix == nil && randomOpt.rng != nil {
+		opt.Random, opt.Switch = randomOpt.rng, randomOpt.sw
+	}
+	res := sched.Run(prefix, opt, func() {
 		viol = body()
 	})
 	if res.Deadlock {
@@ -160,6 +178,13 @@ func Handle(raw []byte) interface{} {
 	seenClass := map[string]bool{}
 	stack := [][]int{t.Prefix}
 	first := true
+	if t.Random.Runs > 0 {
+		// sampling: every stack entry is "no prefix"; runOnce draws the choices
+		randomOpt.rng, randomOpt.sw = sched.NewRng(t.Random.Seed), t.Random.Switch
+		defer func() { randomOpt.rng = nil }()
+		stack = make([][]int, t.Random.Runs)
+		first = false
+	}
 	for len(stack) > 0 {
 		if t.Deadline > 0 && time.Now().UnixNano() > t.Deadline || t.Bounds.MaxExecs > 0 && res.Execs >= t.Bounds.MaxExecs {
 			res.Truncated = true
@@ -233,6 +258,9 @@ func Handle(raw []byte) interface{} {
 		}
 		if t.Once {
 			break
+		}
+		if t.Random.Runs > 0 {
+			continue
 		}
 		kids := childPrefixes(r, len(prefix), t.Bounds)
 		if t.Children {
